@@ -76,4 +76,5 @@ c2be3c9 C07
 51cc715 C09
 e57b5cb C14
 1f17f67 C06
+300dfe4 C19
 LIST
